@@ -12,7 +12,8 @@
     classification that feeds the breaker (`classifyRun`), caching of every gate result, the
     `UnicodeEncodeError` that `prompt.encode()` raises for prompts with lone surrogates (`Prompt.enc`).
   * `_check_circuit`, `_record_success`, `_record_failure`, `reset_circuit_breaker`, `clear_cache`,
-    `_check_cache` (TTL with strict `<`, expired entry deleted), `_cache_result` (dict insertion order,
+    `_check_cache` (TTL with strict `<`, same gate logic as configured now; otherwise the entry is deleted),
+    `_cache_result` (dict insertion order,
     1000-entry cap evicting the first entry with the smallest timestamp).
   * time: microseconds on a virtual clock (`State.now`), advanced only by `Op.adv`.
   * hashing: `Hashes.md5` (cache key) and `Hashes.sha` (token binding) are arbitrary functions on prompt
@@ -152,10 +153,13 @@ inductive CState where
   | closed | opened | halfOpen
   deriving Repr, DecidableEq, Inhabited
 
+/-- a cache entry: key, the stored result, the time it was stored, and the gate logic the result was produced
+    under (`LoopResult.gate_logic`, which `_apply_gate_logic` sets to the logic in force) -/
 structure Entry where
   key : Nat
   res : Result
   ts : Nat
+  gate : Gate
   deriving Repr, DecidableEq
 
 /-- The breaker automaton's own state (`_circuit_state`, `_failure_count`, `_success_count`, `_last_failure`,
@@ -274,20 +278,21 @@ def eraseFirstTs (t : Nat) : List Entry → List Entry
   | e :: es => if e.ts = t then es else e :: eraseFirstTs t es
 
 /-- `self._cache[key] = (result, now)`: an existing key keeps its position in the dict order -/
-def cachePut (k : Nat) (r : Result) (now : Nat) (c : List Entry) : List Entry :=
-  if (cacheFind k c).isSome then c.map fun e => if e.key = k then ⟨k, r, now⟩ else e
-  else c ++ [⟨k, r, now⟩]
+def cachePut (k : Nat) (r : Result) (now : Nat) (g : Gate) (c : List Entry) : List Entry :=
+  if (cacheFind k c).isSome then c.map fun e => if e.key = k then ⟨k, r, now, g⟩ else e
+  else c ++ [⟨k, r, now, g⟩]
 
 /-- `_cache_result` -/
-def cacheStore (k : Nat) (r : Result) (now : Nat) (c : List Entry) : List Entry :=
-  let c' := cachePut k r now c
+def cacheStore (k : Nat) (r : Result) (now : Nat) (g : Gate) (c : List Entry) : List Entry :=
+  let c' := cachePut k r now g c
   if cacheCap < c'.length then eraseFirstTs (minTs c') c' else c'
 
-/-- `_check_cache`: a fresh entry is returned, an expired one is deleted. -/
+/-- `_check_cache`: an entry that is fresh AND was produced under the gate logic configured now is returned; an
+    expired one, or one decided under another gate logic (`gate_logic` re-assigned on the live loop), is deleted. -/
 def checkCache (cfg : Cfg) (H : Hashes) (s : State) (p : Prompt) : State × Option Result :=
   match cacheFind (H.md5 p.id) s.cache with
   | some e =>
-    if (s.now : Int) - (e.ts : Int) < cfg.ttl then (s, some e.res)
+    if (s.now : Int) - (e.ts : Int) < cfg.ttl ∧ e.gate = cfg.gate then (s, some e.res)
     else ({ s with cache := cacheErase (H.md5 p.id) s.cache }, none)
   | none => (s, none)
 
@@ -347,7 +352,7 @@ def consult (cfg : Cfg) (H : Hashes) (s : State) (p : Prompt) (zr yr : Resp) : S
         let ev := classifyRun r.success r.blocked z y
         let s3 := { s2 with br := applyEvent cfg s2.now s2.br ev }
         if cfg.cacheOn then
-          ({ s3 with cache := cacheStore (H.md5 p.id) r s3.now s3.cache }, ⟨.gated ev, some r⟩)
+          ({ s3 with cache := cacheStore (H.md5 p.id) r s3.now cfg.gate s3.cache }, ⟨.gated ev, some r⟩)
         else (s3, ⟨.gated ev, some r⟩)
       else (s2, ⟨.raised, none⟩)   -- sha256(prompt.encode()) raises inside _apply_gate_logic
 
@@ -456,7 +461,7 @@ def finish (cfg : Cfg) (H : Hashes) (s : State) (p : Prompt) (z y : Cls) : State
     let ev := classifyRun r.success r.blocked z y
     let s3 := { s with br := applyEvent cfg s.now s.br ev }
     if cfg.cacheOn then
-      ({ s3 with cache := cacheStore (H.md5 p.id) r s3.now s3.cache }, ⟨.gated ev, some r⟩)
+      ({ s3 with cache := cacheStore (H.md5 p.id) r s3.now cfg.gate s3.cache }, ⟨.gated ev, some r⟩)
     else (s3, ⟨.gated ev, some r⟩)
   else (s, ⟨.raised, none⟩)
 
@@ -516,7 +521,8 @@ def phasesOfRun (cfg : Cfg) (H : Hashes) (s : State) (p : Prompt) (zr yr : Resp)
 
   `gate_logic`, `enable_cache`, `cache_ttl`, `enable_circuit_breaker`, `failure_threshold`, `recovery_timeout` are
   plain public attributes: assigning one on a live loop replaces the configuration and keeps the state (breaker,
-  cache, counters) — nothing is re-validated, and the cache key does not contain the gate logic. -/
+  cache, counters) — nothing is re-validated, except that a cache entry is served only under the gate logic it was
+  decided under (`checkCache`; since the `fix:` commit for finding C07-gate-reassigned-cache). -/
 
 inductive ROp where
   | op (o : Op)
